@@ -291,13 +291,7 @@ pub fn run(cfg: &Cfg, rep: &mut Rep) {
         }
         if k % 10 == 0 {
             // text round trip of epochs before year 1 and after year 9999 (the text carries a sign / a fifth digit)
-            let (y0, y1) = match r.below(4) {
-                0 => (-30000, 0),
-                1 => (10000, 30000),
-                // the whole representable range, two centuries inside the bounds (six / seven digit years)
-                2 => (-3_274_000, -30_001),
-                _ => (30_001, 3_277_000),
-            };
+            let (y0, y1) = if r.bool() { (-30000, 0) } else { (10000, 30000) };
             let (lo, hi) = gen::reading_range(s, y0, y1);
             let c = match r.below(4) {
                 0 => lo + r.range_i128(0, 400 * NS_D),
